@@ -40,6 +40,10 @@
 #include <utility>
 #include <vector>
 
+#ifdef DANMAR_CPPCHECK_VERIF
+#include "verifhooks.h"
+#endif
+
 ThreadExecutor::ThreadExecutor(const std::list<FileWithDetails> &files, const std::list<FileSettings>& fileSettings, const Settings &settings, Suppressions &suppressions, ErrorLogger &errorLogger, TimerResults* timerResults, CppCheck::ExecuteCmdFn executeCommand)
     : Executor(files, fileSettings, settings, suppressions, errorLogger, timerResults)
     , mExecuteCommand(std::move(executeCommand))
@@ -61,9 +65,15 @@ public:
     }
 
     void reportErr(const ErrorMessage &msg) override {
+#ifdef DANMAR_CPPCHECK_VERIF
+        verifhooks::schedPoint("thread.reportErr.pre");
+#endif
         if (!mThreadExecutor.hasToLog(msg))
             return;
 
+#ifdef DANMAR_CPPCHECK_VERIF
+        verifhooks::schedPoint("thread.reportErr.mid");
+#endif
         std::lock_guard<std::mutex> lg(mReportSync);
         mErrorLogger.reportErr(msg);
     }
@@ -186,9 +196,20 @@ static unsigned int STDCALL threadProc(ThreadData *data)
     const FileSettings *fs;
     std::size_t fileSize;
 
+#ifdef DANMAR_CPPCHECK_VERIF
+    verifhooks::schedPoint("thread.start");
+#endif
     while (data->next(file, fs, fileSize)) {
+#ifdef DANMAR_CPPCHECK_VERIF
+        verifhooks::schedPoint("thread.handout", file ? file->path() : fs->filename());
+        verifhooks::crashPoint("file-begin");
+#endif
         result += data->check(file, fs);
 
+#ifdef DANMAR_CPPCHECK_VERIF
+        verifhooks::schedPoint("thread.done", file ? file->path() : fs->filename());
+        verifhooks::crashPoint("file-end");
+#endif
         data->status(fileSize);
     }
 
